@@ -102,10 +102,11 @@ CHECKS = {
                 "(Hoare-style safety pass, CnfSafe.v), so for every honest source, schedule, chunk size and BufReader leftover the "
                 "concrete run returns the value of the simple run on the delivered stream (C01_dimacs_any_chunking, "
                 "C01_log_any_chunking, two-sources corollaries). The programs are tied to the code by running the extracted programs and "
-                "the real parsers on the same re-chunked inputs (items, error location, read calls). PARTIAL for AIGER/BTOR2: "
-                "one-shot-vs-rechunked oracle on the implementation, plus — all seven parsers now being programs of the model — "
-                "answer-insensitivity proved for the AIGER ascii/binary and BTOR2 parsers (PDet_parse_aag/aig/btor2, incl. the BTOR2 "
-                "keyword scanner's 8-byte fast path); their no-stuck/no-panic half is not yet a theorem.",
+                "the real parsers on the same re-chunked inputs (items, error location, read calls). The same end-to-end theorem is "
+                "proved for the AIGER ascii and binary parsers and the BTOR2 parser (PDet_parse_aag/aig/btor2 incl. the BTOR2 keyword "
+                "scanner's 8-byte fast path = its cold path; AigerSafe.v, Btor2Safe.v): all seven parsers of the crate are programs "
+                "of the model and each returns, for every way the bytes arrive, the value of the simple run on the delivered stream. "
+                "An implementation-only one-shot-vs-rechunked oracle runs as well.",
         "design_ref": "DESIGN.md 2/C01",
         "note": "Trusted: Coq kernel; extraction; hand transcription of text.rs/token.rs/cnf.rs/wcnf.rs/gcnf.rs/sat_solver_log.rs into "
                 "parser programs, likewise aiger/{token,ascii,binary}.rs and btor2/{token,parser,btor2}.rs (validated differentially); Read contract.",
@@ -143,7 +144,9 @@ CHECKS = {
                 "the result on every continuation, so items before the failure equal the unfailing items. End to end for the DIMACS "
                 "family and solver logs (CnfSafe.v, every admissible run): a failing source never yields the clean end; the final result "
                 "is the source's error, or a syntax error found before the end of the delivered data was seen, which is then reported on "
-                "every continuation of the data; a non-failing source never yields an I/O error. PARTIAL for AIGER/BTOR2: fault oracle.",
+                "every continuation of the data; a non-failing source never yields an I/O error. The same end-to-end theorems hold for the "
+                "AIGER ascii/binary parsers (incl. the acceptors that bypass eof: remaining line / file content) and the BTOR2 parser, "
+                "where additionally every line handed out before the error ended at a line break (no truncated item).",
         "design_ref": "DESIGN.md 2/C04",
         "note": "Trusted: as C01/C02. Defects D6, D8, D11, D12 (I/O error lost) were found by this check and fixed in /repo.",
         "technique": "Coq proof (reader invariant, determinism of give-up programs, prefix monotonicity by induction on programs) + "
@@ -173,9 +176,10 @@ CHECKS = {
                 "than 8 groups; AIG renumbering terminates on every graph (cyclic or not, any depth) and never panics. End to end for "
                 "the DIMACS family and solver logs (Hoare logic over the parser-program semantics, CnfSafe.v): for every byte string and "
                 "every terminal event every admissible run ends with a value — never an advance beyond the scanned offsets, never the "
-                "column-subtraction underflow or any other panic, every loop makes progress — hence every concrete run is CDone. "
-                "PARTIAL: AIGER/BTOR2 parsers by the safe oracle (debug assertions and overflow checks on, counting allocator, time "
-                "limit); heap and stack are measured, not modelled.",
+                "column-subtraction underflow or any other panic, every loop makes progress — hence every concrete run is CDone; the "
+                "same for the AIGER ascii/binary and BTOR2 parsers (AigerSafe.v, Btor2Safe.v). PARTIAL: heap and stack (pre-allocation "
+                "from header counts, recursion) are runtime behaviour, measured by the safe oracle (debug assertions and overflow checks "
+                "on, counting allocator, time limit), not modelled.",
         "design_ref": "DESIGN.md 2/C05",
         "note": "Trusted: as C02/C12/C13. Defects D4, D5, D7 (overflow, unbounded pre-allocation) were found by this check and fixed.",
         "technique": "Coq proof (termination measures, safety invariants) + model/implementation correspondence + resource-measuring oracle",
@@ -191,7 +195,9 @@ CHECKS = {
                 "-1/0/+1, all formats) and the pa stream — for the DIMACS family and solver logs these are now end-to-end theorems too "
                 "(CnfLimits.v): for every item ever handed out, literals non-zero and within the declared variable count (or the "
                 "type limit when 0 / no header / ignore_header), groups within the declared group count, weights within u64, at most the "
-                "declared number of clauses, and the clean end only with exactly that number.",
+                "declared number of clauses, and the clean end only with exactly that number. AIGER (AigerLimits.v): an accepted file has "
+                "M <= (MAX_CODE-1)/2, I+L+A <= M, section sizes equal to the header counts, literals <= 2M+1, defining literals even and "
+                "non-zero, binary deltas within the reference code; BTOR2: every line handed out is in the format's domain.",
         "design_ref": "DESIGN.md 2/C06",
         "note": "Trusted: as C13; translator for MAX_DIMACS / MAX_CODE.",
         "technique": "Coq proof (exactness of scanners for all admissible runs) + translator-generated constants + limit oracle",
@@ -199,8 +205,13 @@ CHECKS = {
     "C07": {
         "text": "Coq theorems (Props/C07.v): lexical layout facts every token relies on — blank runs of any length are skipped as a whole, "
                 "LF and CRLF are one line break each, leading zeros do not change a numeral, '-0' reads as 0, a numeral's reading does "
-                "not depend on the non-digit that follows. PARTIAL: that whole parsers depend only on the token sequence is validated "
-                "by the expectation oracle (abstract values rendered with random layout, all formats) and the pa stream (model = code).",
+                "not depend on the non-digit that follows. Whole parsers (Layout*.v): a rendering function with the layout as explicit "
+                "data (blank runs, LF/CRLF per line end, comment/blank filler lines before the header, between clauses and inside a "
+                "clause, leading zeros, 0 or -0, missing final newline); for every document in the format's domain and every "
+                "well-formed layout every admissible run of the cnf/wcnf/gcnf parser returns exactly the document and a clean end, hence "
+                "any two layouts parse alike, for every source, schedule and chunk size; likewise the solver log over line lists "
+                "(value lines split arbitrarily, comments and — when ignored — unknown lines anywhere). The expectation oracle with "
+                "random layouts and the pa stream (model = code) run as well.",
         "design_ref": "DESIGN.md 2/C07",
         "note": "Trusted: as C16/C13.",
         "technique": "Coq proof (scanner specifications by induction on the input) + model/implementation correspondence + layout oracle",
@@ -212,8 +223,10 @@ CHECKS = {
                 "column) satisfies loc_ok — a genuine line start (0 or just after an LF) whose number is 1 + the LF bytes before it, "
                 "no LF between it and the reported position, position within the input, column = position - line start + 1 — with one "
                 "documented exception inside the property's bounds (a last comment line without LF counts as a line; witness pinned). "
-                "'On the offending token' is checked by the corruption oracle (decorated layouts) on all formats. PARTIAL for "
-                "AIGER/BTOR2: location oracle; known finding K1 (binary AIGER).",
+                "'On the offending token' is checked by the corruption oracle (decorated layouts) on all formats. ASCII AIGER and BTOR2: "
+                "every reported (line, column) is exactly line_col_of S pos for a position of the input (no exception). Binary AIGER: "
+                "loc_ok for the input with the LF bytes of the and-gate section masked, and for the input itself when that section has "
+                "no byte 10; the witness that it fails otherwise (known finding K1) is pinned.",
         "design_ref": "DESIGN.md 2/C08",
         "note": "Trusted: as C01. Defects D2 (BTOR2 mark) and D11 (AIGER line accounting) were found by this check and fixed.",
         "technique": "Coq proof (LineReader primitives) + model/implementation correspondence + location oracle",
@@ -225,9 +238,12 @@ CHECKS = {
                 "the parser's keywords (table regenerated from the source on every run). BTOR2 whole documents: the parser program run on "
                 "the bytes the writer function produces returns exactly the lines and a clean end, for every list of lines in the format's "
                 "domain (all node kinds, symbols, comments; Btor2Rt.v), parser program and writer function being tied to the code by the "
-                "pa stream (every field of every line, the bytes write_into produces, the constants' validating constructors). PARTIAL: "
-                "whole-document round trips of the DIMACS family and AIGER (parse.write.parse, value->text->value) are checked on the "
-                "implementation by the rt and expectation oracles.",
+                "pa stream (every field of every line, the bytes write_into produces, the constants' validating constructors). DIMACS family "
+                "(Layout.v, LayoutProofs.v): the crate's writer as a function (header formats regenerated from the source) is the "
+                "plain-layout rendering, and every admissible/concrete parse of its output returns exactly the document, for every "
+                "document in the domain (strict header unless ignore_header; witness pinned). PARTIAL: the DIMACS writer function is tied "
+                "to the code by the translator and the rt oracle only; AIGER whole-document round trip is checked on the implementation "
+                "by the rt and expectation oracles (model in progress).",
         "design_ref": "DESIGN.md 2/C03",
         "note": "Trusted: as C11/C13; translator for the BTOR2 table. Defect D9 (DecimalConst) was found by this check and fixed.",
         "technique": "Coq proof (number-level round trips) + translator-generated table + round-trip oracle",
